@@ -1,6 +1,8 @@
 package checker
 
 import (
+	"sort"
+
 	"github.com/jsightapi/jsight-schema-go-library/errors"
 	"github.com/jsightapi/jsight-schema-go-library/internal/json"
 	"github.com/jsightapi/jsight-schema-go-library/internal/lexeme"
@@ -32,8 +34,16 @@ func CheckRootSchema(rootSchema *schema.Schema) {
 		c.checkNode(rootSchema.RootNode(), rootSchema.TypesList())
 	}
 
-	for name, typ := range rootSchema.TypesList() {
-		c.checkType(name, typ, rootSchema.TypesList())
+	// The types are checked in the order of their names, so that the error
+	// reported for several broken types does not depend on map iteration.
+	types := rootSchema.TypesList()
+	names := make([]string, 0, len(types))
+	for name := range types {
+		names = append(names, name)
+	}
+	sort.Strings(names)
+	for _, name := range names {
+		c.checkType(name, types[name], types)
 	}
 }
 
